@@ -152,3 +152,15 @@ impl Digest {
         self.bytes(s.as_bytes());
     }
 }
+
+/// at most `n` bytes of `s`, cut at a character boundary, with an ellipsis when cut
+pub fn clip(s: &str, n: usize) -> String {
+    if s.len() <= n {
+        return s.to_string();
+    }
+    let mut cut = n;
+    while !s.is_char_boundary(cut) {
+        cut -= 1;
+    }
+    format!("{}…", &s[..cut])
+}
